@@ -318,13 +318,18 @@ def evaluate(ctx, items, cfgs):
             corr.dist["rebuild/lookups"] += 1
             parts = [p.split() for p in o.split("|")] if not o.startswith("CRASH") and o not in ("nosetup", "unsupported") else None
             wantb = [str(G.enc(osk, x)) for x in v]
-            okk = parts is not None and len(parts) >= 2 and all(p == wantb for p in parts)
-            corr.add_obl("rebuild", 1, 0 if okk else 1)
-            if not okk and nbad < 2:
+            ok_fg = parts is not None and len(parts) >= 2 and parts[0] == wantb and parts[1] == wantb
+            ok_h = parts is not None and (len(parts) < 3 or parts[2] == wantb)
+            corr.add_obl("rebuild", 1, 0 if ok_fg else 1)
+            if parts is not None and len(parts) >= 3:
+                corr.add_obl("pack_for", 1, 0 if ok_h else 1)
+            if not (ok_fg and ok_h) and nbad < 2:
                 nbad += 1
                 cj = {"stack": sj, "coords": [[G.jv(x) for x in c]], "cfg": cfg, "op": "cmp"}
-                corr.violation("rebuild", f"field<{s.desc()[:170]}> at {[str(G.jv(x)) for x in c]} ({cfg}): original | rebuilt [| helper-built] lookups = {o[:160]}, "
-                               f"expected all equal to {wantb}", cj, impl=o, model=wantb, oracle_fails=True, key={"kind": "cmp", "stack": s.desc()}, cfg=cfg)
+                ob = "rebuild" if not ok_fg else "pack_for"
+                corr.violation(ob, f"field<{s.desc()[:170]}> at {[str(G.jv(x)) for x in c]} ({cfg}): lookups of the original | the field rebuilt from its reported "
+                               f"configuration [| the field built by make_parameter_pack_for] = {o[:160]}, expected all equal to {wantb}", cj, impl=o,
+                               model=wantb, oracle_fails=True, key={"kind": "cmp", "stack": s.desc()}, cfg=cfg)
     corr.violations.sort(key=lambda v: (not v["oracle_fails"], len(str(v["case"]["stack"]))))
     return corr
 
